@@ -14,6 +14,7 @@ var parts = map[string]func(*vk.Ctx){
 	"sqlite-bfs":    sqliteBFS,
 	"sqlite-fault":  sqliteFault,
 	"sqlite-reopen": sqliteReopen,
+	"sqlite-retry":  sqliteRetry,
 }
 
 func main() {
@@ -34,6 +35,10 @@ func main() {
 				parts[name] = func(c *vk.Ctx) { fn(c); pprof.StopCPUProfile(); w.Close() }
 			}
 		}
+	}
+	if len(os.Args) > 1 && os.Args[1] == retryChildName {
+		retryChild() // hidden part: the synctest bubbles of sqlite-retry (testing.Main exits the process)
+		return
 	}
 	vk.RunPart(parts)
 }
